@@ -453,6 +453,7 @@ func (tm *TM) Stubs() map[string]exec.Stub {
 		}
 		return o
 	}
+	st["go/types.NewVar"] = st["go/types.NewParam"]
 	st["go/types.IsInterface"] = func(ex *exec.Exec, c *exec.CallInfo) exec.Value {
 		iv := c.Args[0].(exec.Iface)
 		if iv.T == nil {
